@@ -360,21 +360,23 @@ Section Text.
   Definition text_write (v : tval) : res traw :=
     match v with
     | TVStr s => bind (enc1 s) (fun b => Ok (RTVlen [b]))
-    | TVArrU [] | TVArrS [] => Err IndexErr                      (* values[0] *)
-    | TVArrU l => bind (enc_arr l) (fun bs => Ok (RTVlen bs))
+    | TVArrS [] => Err IndexErr                                   (* pre-repair path only (a byte array is decoded at assignment now) *)
+    | TVArrU l => bind (enc_arr l) (fun bs => Ok (RTVlen bs))    (* `len(values) == 0 or not isinstance(values[0], bytes)`: an empty
+                                                                     array is written as an empty vlen dataset (/repo f36edcd) *)
     | TVArrS l => Ok (RTFixed l)                                  (* bytes are written as they are *)
     end.
 
   (* fetch_values (str/bytes branch) + TextData.values getter *)
   Definition text_fetch (r : traw) : res tval :=
-    let l := match r with RTVlen l => l | RTFixed l => l end in
-    match l with
-    | [] => Err IndexErr
-    | _ => match all_some (map dec l) with
-           | None => Err UnicodeDecodeErr
-           | Some [s] => Ok (TVStr s)                             (* if len(values) == 1: values = values[0] *)
-           | Some ss => Ok (TVArrU ss)
-           end
+    match r with
+    | RTVlen [] => Ok (TVArrU [])            (* `len(values) > 0 and ...` fails; the getter turns the empty object array into an empty 'U' array *)
+    | RTFixed [] => Ok (TVArrS [])           (* an empty 'S' dataset is returned as it is (not reachable from a write) *)
+    | RTVlen l | RTFixed l =>
+        match all_some (map dec l) with
+        | None => Err UnicodeDecodeErr
+        | Some [s] => Ok (TVStr s)                                (* if len(values) == 1: values = values[0] *)
+        | Some ss => Ok (TVArrU ss)
+        end
     end.
 
   Inductive toutcome :=
